@@ -459,6 +459,15 @@ class Registry:
             ordinal = loops.index(st)
         except ValueError:
             return None
+        # keys (qualname, 'over:<text>') select the loop by (a fragment of) what it iterates over / tests, whatever its position among
+        # the loops of the function; (qualname, ordinal) keys are the fallback
+        try:
+            head = ast.unparse(st.iter if isinstance(st, ast.For) else st.test).replace(' ', '')
+        except Exception:
+            head = ''
+        for (q, sel), inv in self.invariants.items():
+            if q == frame.qualname and isinstance(sel, str) and sel.startswith('over:') and sel[5:].replace(' ', '') in head:
+                return inv
         return self.invariants.get((frame.qualname, ordinal))
 
     def copy(self):
